@@ -23,16 +23,17 @@ type Replay struct {
 }
 
 type VsJob struct {
-	Mode     string    `json:"mode"`
-	Cfgs     []obs.Cfg `json:"cfgs"`
-	POR      bool      `json:"por"`
-	MaxSteps int       `json:"max_steps"`
-	LogRuns  int       `json:"log_runs"`
-	LogLines int       `json:"log_lines"`
-	Seed     int64     `json:"seed"`
-	N        int       `json:"n"`
-	Replays  []Replay  `json:"replays"`
-	Tag      string    `json:"tag"`
+	Mode        string    `json:"mode"`
+	Cfgs        []obs.Cfg `json:"cfgs"`
+	POR         bool      `json:"por"`
+	MaxSteps    int       `json:"max_steps"`
+	LogRuns     int       `json:"log_runs"`
+	LogLines    int       `json:"log_lines"`
+	Seed        int64     `json:"seed"`
+	N           int       `json:"n"`
+	Replays     []Replay  `json:"replays"`
+	Tag         string    `json:"tag"`
+	StartPoints bool      `json:"start_points"`
 }
 
 type VsFailure struct {
